@@ -4,9 +4,10 @@ From Coq Require Import Arith List Bool Lia.
 Import ListNotations.
 From Cffi Require Import C28.Gen C28.Model.
 
-(* the proofs are about the code as it is: the fast-path switch inside the success branch.  If the
+(* the proofs are about the code as it is: the fast-path switch inside the success branch, the CAS
+   guard released before pthread_mutex_lock, the result zeroed when the pointer is NULL, the pointer reset after a failed init.  If the
    regenerated Gen.v says otherwise, [ustep] fails and every theorem about [step] stops checking. *)
-Definition cstep := core true true.
+Definition cstep := core true true true true.
 Ltac ustep := unfold cstep, core; cbv beta iota zeta.
 
 (* ------------------------------------------------------------------ projections *)
@@ -51,7 +52,7 @@ Proof. destruct tc as [t c]. step_cases s t c; split_ifs; simp_state; split_ifs;
    keeps the GIL, and the two coincide *)
 Lemma step_cases s tc : step s tc = s \/ step s tc = cstep s tc.
 Proof.
-  unfold step, step_gen, keeps_gil. change gen_switch_in_success with true. change gen_guard_released_before_lock with true.
+  unfold step, step_gen, keeps_gil. change gen_switch_in_success with true. change gen_guard_released_before_lock with true. change gen_zero_on_null with true. change gen_fail_resets_org with true.
   change gen_init_exits with (true, true). cbn [fst snd negb].
   destruct (gil_blocked s (fst tc)); [left; reflexivity | right].
   fold cstep. destruct (fst tc <? nthr s); cbn [andb]; [|reflexivity].
@@ -60,7 +61,7 @@ Qed.
 
 Lemma step_cstep s tc : gil s = None -> step s tc = cstep s tc.
 Proof.
-  intros G. unfold step, step_gen, keeps_gil, gil_blocked. rewrite G. change gen_switch_in_success with true. change gen_guard_released_before_lock with true.
+  intros G. unfold step, step_gen, keeps_gil, gil_blocked. rewrite G. change gen_switch_in_success with true. change gen_guard_released_before_lock with true. change gen_zero_on_null with true. change gen_fail_resets_org with true.
   change gen_init_exits with (true, true). cbn [fst snd negb]. fold cstep.
   destruct (fst tc <? nthr s); cbn [andb]; [|reflexivity].
   destruct (stacks s (fst tc)) as [| [l p] r]; [reflexivity|]. destruct p; reflexivity.
